@@ -105,6 +105,7 @@ type ProbeSpec struct {
 	Ctor string   `json:"ctor,omitempty"`
 	Args []any    `json:"args,omitempty"`
 	Deps []string `json:"deps,omitempty"`
+	Tags []string `json:"tags,omitempty"` // tags (priority 0) of an overriding service
 }
 
 type ProbeSession struct {
